@@ -318,3 +318,39 @@ def run(ck, prog, tier, load):
         # no path to this Pending passes a consuming call
         bad = [c for c in cons if bb in rs.reach([c])]
         ck.ob("C15-e.pending-pure", rs.npath, not bad, rs, bb, "read_stream returns Pending without having consumed buffered bytes")
+
+    # ---- (f) delimiter candidates are never emitted as data --------------------------------
+    blen = edges_where(rs, lambda c, lab: c[0] == "discr" and c[2] == "core::option::Option" and any(r[0] in ("var", "phi") and r[2] == "b_len" for r in e_roots(c)) and lab == "Some")
+    ck.anchor("C15-f", len(blen), 1, "Some edge of the delimiter-candidate test (b_len) in read_stream")
+    data_rets = [bb for bb, e in rs.ret_exprs() if agg_chain(e)[0][:3] == ["core::task::poll::Poll::Ready", "core::option::Option::Some", "core::result::Result::Ok"]]
+    ck.anchor("C15-f", len(data_rets), 2, "data-emitting returns of read_stream")
+    enough = cmp_pred("Lt", lambda e: bool(e_calls(e, r"BytesMut::len$")), lambda e: bool(e_calls(e, r"core::str::len$")), False)
+    for a, tb in blen:
+        r = rs.reach([tb], removed_edges=edges_where(rs, enough))
+        bad = [x for x in data_rets if x in r]
+        ck.ob("C15-f.partial-delimiter-waits", "read_stream", bool(edges_where(rs, enough)) and not bad, rs, bad[0] if bad else tb,
+              "with a delimiter candidate at the start of the buffer, field data is emitted only after the buffer was found long enough to compare the whole delimiter (else need-more / Incomplete)")
+    # the head check must run for every buffer length in which the scan loop can step over a look-alike at position 0
+    head_min = None
+    for a in rs.live:
+        br = rs.branch(a)
+        if not br:
+            continue
+        n_ = norm_cmp(br[0], True)
+        if n_ and e_calls(n_[1], r"BytesMut::len$") and n_[2][0] == "const" and n_[2][2] is not None and n_[2][2] > 0 and any(rs.dominates(a, x) for x, t_ in blen):
+            # taken edge towards the candidate computation
+            k = n_[2][2]
+            # Le(len,k) False -> len >= k+1 ; Lt(len,k) False -> len >= k
+            head_min = k + 1 if n_[0] == "Le" else k if n_[0] == "Lt" else None
+    scan_k = None
+    for a in rs.live:
+        br = rs.branch(a)
+        if not br:
+            continue
+        n_ = norm_cmp(br[0], True)
+        if n_ and n_[0] == "Le" and e_calls(n_[2], r"BytesMut::len$") and e_bins(n_[1], ("Add", "AddWithOverflow")):
+            ks = [c_[2] for c_ in e_consts(n_[1]) if c_[2] is not None and c_[2] > 0]
+            if ks:
+                scan_k = max(ks)
+    ck.ob("C15-f.head-check-covers-scan", "read_stream", head_min is not None and scan_k is not None and head_min <= scan_k, rs, None,
+          "the delimiter-candidate check at the start of the buffer runs for every buffer length (>= %s) at which the scan loop (needs cur + %s <= len) could otherwise step over a look-alike at position 0" % (head_min, scan_k))
